@@ -24,7 +24,7 @@ from .check_client import answer_stimulus, correspond, rand_ac_status, rand_inst
 
 TICK = 1024
 MOMENTS = ["mid-handshake", "mid-handshake", "connect-backoff", "connecting", "after-init", "after-init", "after-init-idle",
-           "link-down-with-pending", "after-heartbeat-reset"]
+           "link-down-with-pending", "after-heartbeat-reset", "already-shut-down"]
 
 
 def request_log(rig, since_ticks: int, horizon: int):
@@ -98,6 +98,9 @@ def run(ck: common.Check, tier: str) -> None:
                     ac = rig.at.air_conditioners[0]
                     rig.start(ac.set_power(T.POWER_CTL[1]))
                     rig.start(ac.set_power(T.POWER_CTL[2]))
+                elif moment == "already-shut-down":
+                    rig.run(rig.at.shutdown(), max_ticks=20 * TICK)
+                    rig.advance(rng.choice([0, TICK]))
                 elif moment == "after-heartbeat-reset":
                     rig.console.silent_from = 0
                     rig.advance(331 * TICK)
